@@ -454,6 +454,15 @@ def startHand (s2 : State) (createOk : Bool) : State × OpenOut :=
   else if !createOk then (s2, .startFailed)
   else ({ s2 with status := .playing, gameBlind := some s2.blind, hasGame := true }, .opened)
 
+/-- what `startGame` hands to the backend for each entry of the hand's list: the bankroll as starting stack and the
+labels; the first entry gets a `dealer` label when it has none (dead button) -/
+def handOptions (s2 : State) : List (Int × List String) :=
+  let base := s2.gidx.filterMap (fun i =>
+    if 0 ≤ i then (s2.players[i.toNat]?).map (fun p => (p.bankroll, p.positions)) else none)
+  match base with
+  | [] => []
+  | (b, pos) :: t => (b, if pos.contains "dealer" then pos else pos ++ ["dealer"]) :: t
+
 /-- `openGame` + `startGame` once the guards have passed -/
 def openCore (s : State) (choice : Option Int) (createOk : Bool) : State × OpenOut :=
   let r := if !s.sm.isInit then SM.init s.sm choice else SM.rotate s.sm
@@ -539,6 +548,42 @@ def close (s : State) : State := { s with status := .closed, released := true }
 def release (s : State) : State := { s with released := true }
 def start (s : State) : State := { s with started := true }
 def setBlind (s : State) (b : Blind) : State := { s with blind := b }
+
+-- ---------------------------------------------------------------- the event system
+
+/-- everything that can happen to a table: the `TableEngine` interface plus the asynchronous happenings -/
+inductive Event
+  | reserve (j : Join) (choice : List Int)
+  | join (id : Nat)
+  | redeem (id : Nat) (chips : Int)
+  | leave (ids : List Nat)
+  | update (js : List Join) (leaves : List Nat) (choice : List Int)
+  | blind (b : Blind)
+  | pause | close | release | start
+  | setup (gc : Nat) (parts : List (Nat × Nat))
+  | finish (id : Nat)
+  | fire (choice : Option Int) (createOk : Bool)      -- the open-game gate fires
+  | settle (result : List (Nat × Int))               -- the backend closed the hand with this result
+  | continue (expired : Bool)                         -- continueGame and its delayed handler
+
+def step (s : State) : Event → State
+  | .reserve j ch => (reserve s j ch).1
+  | .join id => (join s id).1
+  | .redeem id c => (redeem s id c).1
+  | .leave ids => (batchRemove s ids).1
+  | .update js lv ch => (update s js lv ch).1
+  | .blind b => setBlind s b
+  | .pause => pause s
+  | .close => close s
+  | .release => release s
+  | .start => start s
+  | .setup gc ps => setup s gc ps
+  | .finish id => (finish s id).1
+  | .fire ch ok => (gateFire s ch ok).1
+  | .settle r => (settle s r).1
+  | .continue e => (continueGame s e).1
+
+def run (s : State) (evs : List Event) : State := evs.foldl step s
 
 def normalize (s : State) : State := { s with sm := SM.normalize s.sm }
 
